@@ -37,3 +37,14 @@ def run(ctx):
         saferun.check_dispatch(ctx, facts)
     except ImportError:
         pass
+    from checks import predprobe
+    predprobe.check(ctx)
+    # availability theorems broken and nothing concrete found on this host: search the model for a machine/build
+    if ctx.broken and not ctx.violations:
+        wit = predprobe.model_witness(ctx)
+        for w in (wit or [])[:2]:
+            ctx.violation("dispatch-availability-model:" + w.split(": ", 1)[-1][:60],
+                          "on the model regenerated from dispatch.rs: " + w,
+                          {"kind": "model-witness", "witness": w, "theorems": ["C09_predicates_sound", "C09_predicates_complete",
+                                                                               "C09_never_unavailable", "C09_best_available"],
+                           "note": "a CPU feature set / build this host cannot present; evaluated with vm_compute on Gen/GenDispatch.v"})
